@@ -35,7 +35,8 @@ CLAIMED.update({
               "exact-rational oracle compared with the model on a share of the cases.",
               STD_NOTE + "Proved exact (iff, over rational points) for every kind incl. polygon and multipolygon (closed rings, holes within the shell's "
               "bounding box; polygon point set = ring points and points of non-zero winding number; the corner winding test is justified by the "
-              "formalised constancy of the winding number on boxes that miss the ring). Reading 'non-zero winding number' as 'inside' is C02.",
+              "formalised constancy of the winding number on boxes that miss the ring). Reading 'non-zero winding number' as 'inside' is C02. "
+              "One known finding (D35: float32 storage, long edges computed in single precision) is listed in known_findings.json.",
               "Lean 4 proof about the kernel model + model/implementation/oracle correspondence", "I.2 C01, II §3 C01"),
     "C02": _c("Lean model of point-vs-shape intersects (Geom.point*, the winding loop as coded) with the theorems of Props/C02.lean; "
               "correspondence over every shape of the grid families x every grid point (rays through vertices, points on edges), a missing and an "
@@ -92,7 +93,8 @@ CLAIMED.update({
               "correspondence: every Dask operation against the same operation on the concatenation of the partitions for seven provenances, plus "
               "partition_bounds / cx / sjoin rows and per-partition sjoin candidates against the Lean model.",
               STD_NOTE + "The Dask sjoin (per-partition join with pruned right rows) is proved equal to the join of the concatenation (left: row for row; "
-              "inner: as a multiset). Dask graph construction/execution, meta inference, from_delayed are exercised, not modelled.",
+              "inner: as a multiset). Dask graph construction/execution, meta inference, from_delayed are exercised, not modelled. One known finding (D31: "
+              "in-place assignment of a geometry column keeps stale partition bounds) is listed in known_findings.json.",
               "Lean 4 proof about the partition model + Dask-vs-pandas correspondence", "I.2 C06, II §3 C06"),
     "C08": _c("Lean exact-arithmetic reference for hilbert_distance (cell of the bbox centre, clip, degenerate extents) with the theorems of "
               "Props/C08.lean; equality with the reference where the scaling arithmetic is exact (power-of-two extents, also far from the origin), "
